@@ -299,7 +299,10 @@ def run(rep, tier, seed, replay=None):
         'align-self start.  K2 class: nowrap / wrap / wrap-reverse containers with a definite main size whose children are leaves '
         '(lengths only; no baseline alignment, no relative insets, no scrollbars); cases with an "echo" measure function run with the '
         'exact-key memo (hook) because the real cache key is lossy for such functions (known finding of C01/C17); '
-        'nested containers, percentages, indefinite main size, baselines are covered by the oracle only'])
+        'nested containers, percentages, indefinite main size, baselines are covered by the oracle and by K3',
+        'K3 (`vh flexalg cases`): Model/FlexAlg.v = ALL of compute_flexbox_layout as a resumption (children answered with the outputs recorded on '
+        'the implementation: any child kind, percentages, min/max, aspect ratio, insets, scrollbars, baselines, indefinite sizes, both run modes); '
+        'every query input, stored layout and the output compared bit for bit'])
     mine_changed = [k for k in changed if k.startswith('gen_flex:')]
     rep.cov['fingerprints_changed'] = mine_changed
     rc, out, binp, dt = build_harness('release')
@@ -452,7 +455,13 @@ def run(rep, tier, seed, replay=None):
                                           'available < sum + gaps + gap + hyp_outer(first item of the next line)'})
     rep.cov['samples'].append({'theorem': 'C07_hyp_is_clamped_basis : base_fin, pb_class (no max, or padding+border <= max, or <= min) -> '
                                           'exh_prem (determine_flex_base_size ..); C07_hyp_is_clamped_basis_refuted outside pb_class'})
-    # ---------------------------------------------------------------- known findings: the refutation witnesses must still fail on the implementation
+    # ---------------------------------------------------------------- K3: the WHOLE algorithm (Model/FlexAlg.v: compute_flexbox_layout as a resumption
+    # over the tree interface, assembled from the models above + baselines, indefinite main size, gutters, insets, absolute and hidden
+    # children) against the event trace of the implementation: every query input, stored layout and output, bit for bit
+    if not replay:
+        from . import _flexalg as FA
+        FA.flexalg_k(rep, 'C07', binp, seed + 7070, 2000 if (mine_changed or tier != 'quick') else 500, payload_is_broken=True)
+
     rc, out = vh(binp, ['c07', 'one'] + PBFLOOR_WITNESS, timeout=60)
     try:
         wc, wr = parse_cr(out)
